@@ -471,6 +471,8 @@ def impl_self_ty(body):
     io = body.get('impl_of') or ''
     if io.startswith('<') and ' as ' in io:
         return io[1:io.rindex(' as ')]
+    if '<impl ' in io and ' for ' in io:
+        return io[io.index(' for ') + 5:io.rindex('>')]
     return io
 
 
